@@ -70,19 +70,28 @@ class Prop(Check):
         "Proc.C13_unlinked_no_processing",
         "Proc.C13_root_kept",
         "Proc.C13_root_calls",
+        "Proc.C13_model_calls_own",
+        "Proc.C13_model_calls_none",
+        "Proc.C13_model_called_iff",
+        "Proc.C13_model_calls_indep",
+        "Proc.C13_load_model_calls_own",
     ]
     DRIVER = "Drivers/Proc.lean"
     QUICK_CASES = 440
     THOROUGH_CASES = 12000
     RULE = ("generated grammars with 2..5 common rules, 0..3 abstract rules (nested, with match-rule alternatives, "
             "wrapped alternatives), recursive containment, references with postponement schedules, user classes, "
-            "1..3 files; processors on all rules or a random subset, 15% of the calls return a replacement; "
+            "1..3 files; processors on all rules, a random subset, the abstract rules only or no rule at all (also: "
+            "register_obj_processors never called), 15% of the calls return a replacement; "
             "the grammar in one file or spread over up to 12 files importing each other (rules reachable through a "
             "chain of imports only); the observed load alone or after a history: 1..3 metamodels of the same grammar "
             "built in any order with the same (or fresh) user classes, earlier loads with any of them (successful, or "
             "failing with a syntax error / an unresolvable reference / a raising processor), registrations that are "
             "replaced, a model repository that keeps the models of earlier loads, imported files that belong to "
-            "another metamodel of the history (registered language); "
+            "another metamodel of the history (registered language; 70% of the multi-file loads without repository), "
+            "each metamodel of a load with its own registration profile, drawn as a contrast (main none / other "
+            "some, main some / other none, complementary, equal, independent), its own match processors and its own "
+            "subset of the user classes; "
             "non-trivial = at least 3 processor calls and (a replacement took effect or an object sits in an "
             "abstract-typed attribute whose rule has a processor)")
     MODELLED = ("hand-modelled: model.py call_obj_processors (Proc.walk/walkFields/walkSlot/walkItems/objStep) and the "
